@@ -286,6 +286,12 @@ def gen_cfg(rng, objs_facts, stream):
     # thresholds stay below 1.0 = the score of generated ground truth (the code applies the confidence list
     # to ground truth too, against its documentation: see C10_confidence_estimates_only_refuted)
     cs = sorted({f["conf"] for f in objs_facts if f["conf"] < 1.0}) or [0.5]
+    # unknown-labelled objects may be judged against np.mean(bounds): keep the bounds on the k/8 lattice then, so that
+    # the float mean and the exact rational mean order every coordinate identically (no float noise in model / oracle)
+    if any(f["is_unknown"] for f in objs_facts):
+        xs = [v for v in xs if v * 8 == int(v * 8)] or [5.0]
+        ys = [v for v in ys if v * 8 == int(v * 8)] or [5.0]
+        ds = [v for v in ds if v * 8 == int(v * 8)] or [5.0]
 
     def pick(vals, lo, hi):
         r = rng.random()
